@@ -164,8 +164,12 @@ func c04(c *Ctx) {
 		// ---- C04.4 entry filters ---------------------------------------------------------------------------------------
 		r = "C04.4/filters"
 		nonIdx := whenCond(false, func(a string) bool { return strings.HasPrefix(a, "call:embedded/store.(*KVMetadata).NonIndexable[") })
-		noMd := whenCond(true, func(a string) bool { return strings.Contains(a, ".md") && strings.Contains(a, "nil") && strings.Contains(a, " == ") })
-		pfx := whenCond(true, func(a string) bool { return strings.HasPrefix(a, "call:embedded/store.hasPrefix(call:embedded/store.(*TxEntry).key") && strings.Contains(a, "SourcePrefix") })
+		noMd := whenCond(true, func(a string) bool {
+			return strings.Contains(a, ".md") && strings.Contains(a, "nil") && strings.Contains(a, " == ")
+		})
+		pfx := whenCond(true, func(a string) bool {
+			return strings.HasPrefix(a, "call:embedded/store.hasPrefix(call:embedded/store.(*TxEntry).key") && strings.Contains(a, "SourcePrefix")
+		})
 		first := func(in ssa.Instruction) bool {
 			return callTo("embedded/store.serializeIndexableEntry")(in)
 		}
@@ -193,7 +197,9 @@ func c04(c *Ctx) {
 		}
 		nsw++
 		recede := callTo("embedded/watchers.(*WatchersHub).RecedeTo@wHub")
-		noHub := whenCond(true, func(a string) bool { return hasFieldSuffix(strings.TrimSuffix(strings.TrimPrefix(a, "("), " == nil)"), "wHub") || (strings.Contains(a, "wHub") && strings.Contains(a, "nil")) })
+		noHub := whenCond(true, func(a string) bool {
+			return hasFieldSuffix(strings.TrimSuffix(strings.TrimPrefix(a, "("), " == nil)"), "wHub") || (strings.Contains(a, "wHub") && strings.Contains(a, "nil"))
+		})
 		notBehind := whenCond(false, func(a string) bool { return strings.Contains(a, ").Ts[") && strings.Contains(a, " < ") })
 		q := &pathQ{fn: g, from: swaps, to: successReturn, via: recede, barrier: anyEdge(noHub, notBehind)}
 		w := q.bypass()
@@ -219,7 +225,9 @@ func c04(c *Ctx) {
 		q := &pathQ{fn: g, fromEntry: true, to: func(in ssa.Instruction) bool {
 			mu, ok := in.(*ssa.MapUpdate)
 			return ok && hasFieldSuffix(desc(mu.Map), "indexers")
-		}, barrier: whenCond(false, func(a string) bool { return strings.Contains(a, "LastCommittedTxID") && strings.Contains(a, ").Ts[") && strings.Contains(a, " < ") })}
+		}, barrier: whenCond(false, func(a string) bool {
+			return strings.Contains(a, "LastCommittedTxID") && strings.Contains(a, ").Ts[") && strings.Contains(a, " < ")
+		})}
 		c.check(q.bypass() == nil, "C04.4/filters", fnName(g)+":index-ahead-rejected", c.pos(g.Pos()), "an index whose Ts exceeds the committed frontier is not registered", "an index that is ahead of the committed log is accepted")
 	}
 	// ---- C04.5 read side: filters, then offset ------------------------------------------------------------------------
